@@ -259,11 +259,11 @@ Section Shape.
       + apply (IH n p ch m' p' ch' n' Hp HP H).
   Qed.
 
-  Lemma rounds_inv : forall fuel os n p p' n', fst p = ver -> inv (snd p) ->
-    add_back_rounds fuel c [(ver, U)] os n (ver, M) p = UOk (p', n') ->
+  Lemma rounds_inv : forall fuel os n p prev p' n', fst p = ver -> inv (snd p) ->
+    add_back_rounds fuel c [(ver, U)] os n (ver, M) p prev = UOk (p', n') ->
     fst p' = ver /\ inv (snd p').
   Proof.
-    induction fuel as [|fuel IH]; intros os n p p' n' Hp HP H; [discriminate|].
+    induction fuel as [|fuel IH]; intros os n p prev p' n' Hp HP H; [discriminate|].
     cbn [add_back_rounds] in H. rewrite add_back_round_fold in H.
     match type of H with
     | context [fold_left ?f ?l ?a] =>
@@ -271,7 +271,9 @@ Section Shape.
     end.
     destruct (round_inv os n p false m1 p1 ch1 n1 Hp HP Er) as (-> & Hp1 & HP1).
     match type of H with context [if ?bb then _ else _] => destruct bb end.
-    - apply (IH os n1 p1 p' n' Hp1 HP1 H).
+    - match type of H with context [if ?bb then _ else _] => destruct bb end.
+      + inversion H; subst. auto.
+      + apply (IH os n1 p1 (Some p1) p' n' Hp1 HP1 H).
     - inversion H; subst. auto.
   Qed.
 
@@ -309,10 +311,10 @@ Section Shape.
               | UErr e => UErr e
               end = UOk (pruned, n1)).
     { match type of H with
-      | context [add_back_rounds ?fu c ?mv ?o ?nn ?mm ?pp] =>
-          destruct (add_back_rounds fu c mv o nn mm pp) as [[pruned1 n2]|e] eqn:Erounds;
+      | context [add_back_rounds ?fu c ?mv ?o ?nn ?mm ?pp ?pv] =>
+          destruct (add_back_rounds fu c mv o nn mm pp pv) as [[pruned1 n2]|e] eqn:Erounds;
             [|discriminate H];
-          destruct (rounds_inv fu o nn pp pruned1 n2 eq_refl HP0 Erounds) as [Hp1 HP1]
+          destruct (rounds_inv fu o nn pp pv pruned1 n2 eq_refl HP0 Erounds) as [Hp1 HP1]
       end.
       exists pruned1, n2. auto. }
     clear H. destruct Hrounds as (pruned1 & n2 & Hp1 & HP1 & H).
